@@ -9,13 +9,13 @@ CONSTANTS
   MIds = {1, 2, 3}
   MVoters = {1, 2, 3}
   MLearners = {}
-  PreVoteOn = TRUE
-  CheckQuorumOn = TRUE
-  MaxTerm = 3
+  PreVoteOn = FALSE
+  CheckQuorumOn = FALSE
+  MaxTerm = 2
   MaxLog = 2
   MaxNet = 4
   MaxCrashes = 0
-  MaxProposals = 1
+  MaxProposals = 0
   MaxDepth = 60
   AllowDrop = TRUE
   AllowDup = FALSE
@@ -25,14 +25,14 @@ CONSTANTS
   Fine = FALSE
   EagerReady = TRUE
   QuiescentTicks = TRUE
-  MaxLeaderTicks = 1
-  TickNodes = {1, 2, 3}
-  MaxDrops = 2
+  MaxLeaderTicks = 0
+  TickNodes = {1, 2}
+  MaxDrops = 0
   MaxTransfers = 0
   TransferTargets = {}
   MaxConf = 0
   ConfMenuIds = {}
-  MaxReads = 0
+  MaxReads = 1
   LazyApply = FALSE
   AllowCompact = FALSE
   ProposeAnywhere = FALSE
